@@ -206,8 +206,7 @@ def midrun(kind, dim, cons, free=0):
 
 
 # ----------------------------------------------------------------------------- tight / clip modes (concrete boxes, symbolic points)
-BOX_POOL = [([0.0], [1.0]), ([-2.5], [-2.5]), ([-1e20], [3.0]),
-            ([0.0, -1.0], [1.0, 4.0]), ([1.0, 2.0], [1.0, 1e20]), ([-3.0, 0.5], [-1.0, 0.5])]
+BOX_POOL = S.BOX_POOL
 
 
 def bounds_constraint(mode, lo, hi):
@@ -237,48 +236,16 @@ def bounds_constraint(mode, lo, hi):
     return h
 
 
-def mode_step(kind, mode, lo, hi, cons):
-    """one real step of a solver configured with tight/clip ranges from a concrete box: all evaluations inside"""
-    dim = len(lo)
+def mode_oblig(r):
+    w = r.w
+    obs = [('evaluated-inside-box@%d[call %d]' % (r.g, k), w.inside(c)) for k, c in enumerate(w.calls)]
+    if not isinf(r.post['bestE']):
+        obs.append(('finite-best-inside-box@%d' % r.g, w.inside(r.post['best'])))
+    return obs
 
-    def h(ctx):
-        w = L.World(ctx, dim, box=False, cons=cons)
-        s = S.make_solver(kind, dim)
-        s.SetEvaluationLimits(L.BIG, L.BIG)
-        s.SetTermination(L.never())
-        kw = dict(tight=True) if mode == 'tight' else dict(clip=(mode == 'clip=True'))
-        stubs.ORACLE.override = S.FixedDraws()
-        try:
-            s.SetStrictRanges(list(lo), list(hi), **kw)
-        except ZeroDivisionError:
-            return [('configuration-rejected-before-any-evaluation', const(mode == 'tight' and list(lo) == list(hi) and not w.calls))]
-        finally:
-            stubs.ORACLE.override = None
-        w.lo, w.hi = [R(v) for v in lo], [R(v) for v in hi]
-        if cons:
-            s.SetConstraints(w.constraint)
-        s.SetObjective(w.cost)
-        if kind == 'Powell':
-            S.install_brent_contract(ctx)
-        x0 = ctx.reals('x', dim)
-        if kind in ('DE', 'DE2'):
-            for i in range(s.nPop):
-                s.population[i] = list(x0) if i == 0 else [R(lo[j]) + R(0) for j in range(dim)]
-            stubs.ORACLE.override = S.FixedDraws() if mode != 'clip=False' else None
-        else:
-            s.population[0] = list(x0)
-        try:
-            s.Step()
-            s.Step()
-        finally:
-            stubs.ORACLE.override = None
-        obs = [('evaluated-inside-box[call %d]' % k, w.inside(c)) for k, c in enumerate(w.calls)]
-        b, be = L.vec(s.bestSolution), L.scalar(s.bestEnergy)
-        if not isinf(be):
-            obs.append(('finite-best-inside-box', w.inside(b)))
-        obs.append(('ran', const(True)))
-        return obs
-    return h
+
+def mode_step(kind, mode, lo, hi, cons):
+    return S.mode_step(kind, mode, lo, hi, cons, mode_oblig)
 
 
 def instances(tier, seed):
